@@ -11,7 +11,9 @@ tvars == <<vars, l>>
 Trace == ndJsonDeserialize(IOEnv.VERIF_TRACE)
 E == Trace[l]
 A == E.args
-IsEv(e) == l <= Len(Trace) /\ E.ev = e /\ E.panic = "" /\ l' = l + 1
+\* E.stale: differences between the live state and ReadState(last checkpoint the Backend received) right after
+\* the call's own Lock/Unlock section - must be empty at EVERY step (a mutator that forgets State.writing())
+IsEv(e) == l <= Len(Trace) /\ E.ev = e /\ E.panic = "" /\ Len(E.stale) = 0 /\ l' = l + 1
 
 -----------------------------------------------------------------------------
 (* the model state as the accessors show it *)
